@@ -51,7 +51,7 @@ def run(prop, tier):
         traces += out["traces"]
     for i, t in enumerate(traces):
         t["id"] = i + 1
-    if not traces:
+    if not traces and not v.violations:
         raise Machinery("no toy-based hypotest traces recorded (hooks missing?)")
     accepted, rejected = tracecheck.check("TraceHypotest", traces, tag="c14trace", constants={"MaxUlps": 64}, spec="TraceSpecH")
     for tid, idx, reason in rejected:
